@@ -1,4 +1,4 @@
-\* C20: edges declared from the other end with module_antidepends() (a back-end pulls in / names its user): every case on <= 3 modules whose declarations are consistent (ModLoadContract!Consistent), module_depends() calls before module_antidepends() calls in name order, every listing, paired hook profiles for the good cases
+\* C20: edges declared from the other end with module_antidepends() (a back-end pulls in / names its user): every case on <= 3 modules, module_depends() calls before module_antidepends() calls in name order, every listing, paired hook profiles for the good cases
 SPECIFICATION Spec
 CONSTANTS
     Source = "enum"
